@@ -715,20 +715,34 @@ func c09Lifetime(c *core.Ctx, entries []c09Entry) {
 			continue
 		}
 		r := c.RNG("lifetime", int64(ei))
-		var ins [][]byte
-		for k := 0; k < 8; k++ {
+		// inputs the entry point accepts, so that every call does its real work (a call that bails out
+		// at the first length check exercises nothing that could wear out)
+		var ins, spare [][]byte
+		for k := 0; k < 200 && len(ins) < 8; k++ {
+			var in []byte
 			switch {
 			case e.json:
-				ins = append(ins, c09JSONInput(r, ei+k))
+				in = c09JSONInput(r, ei+k)
 			case e.text:
-				ins = append(ins, c09TextInput(r, r.Intn(40)))
+				in = c09TextInput(r, r.Intn(40))
 			default:
-				in, _ := c09Binary(r, e, int64(k+3))
-				if len(in) > 64 {
-					in = in[:64]
+				in, _ = c09Binary(r, e, int64(k))
+				if len(in) > 96 {
+					in = in[:96]
 				}
-				ins = append(ins, in)
 			}
+			var err error
+			if p, _ := core.Guard(func() { err = e.call(r, append([]byte{}, in...)) }); !p && err == nil {
+				ins = append(ins, in)
+			} else if len(spare) < 8 {
+				spare = append(spare, in)
+			}
+		}
+		for len(ins) < 4 && len(spare) > 0 {
+			ins, spare = append(ins, spare[0]), spare[1:]
+		}
+		if len(ins) == 0 {
+			ins = [][]byte{{}}
 		}
 		bad := false
 		for k := 0; k < calls && !bad; k++ {
